@@ -176,6 +176,14 @@ class FuncFacts:
             return hits[0].value
         return None
 
+    def canon(self, text: str) -> str:
+        """Normal form of an expression given as source text (to compare with norm(expr, subst=False))."""
+        return norm(ast.parse(text, mode="eval").body, self.folder, self.scope, None)
+
+    def is_form(self, e: ast.expr, *forms: str, subst: bool = False) -> bool:
+        got = self.norm(e, subst=subst)
+        return any(got == self.canon(f) for f in forms)
+
     def norm(self, e: ast.expr, subst: bool = True) -> str:
         return norm(e, self.folder, self.scope, self.single_defs() if subst else None)
 
